@@ -10,8 +10,8 @@ open Drx Drx.Lscr Drx.Spec Drx.Link
 
 /-! ### shapes of embedded expressions -/
 
-theorem emb_name_ok : ∀ (e : Expr) (n : Node), Emb e n → ∃ nm, n.name = .ok nm := by
-  intro e n h
+theorem emb_name_ok : ∀ (e : Expr) (n : Node), FragE0 e = true → Emb e n → ∃ nm, n.name = .ok nm := by
+  intro e n hf h
   cases e with
   | var k v => cases k <;> (simp only [Emb] at h; obtain ⟨p, rfl⟩ := h; exact ⟨_, rfl⟩)
   | int k => simp only [Emb] at h; obtain ⟨p, rfl⟩ := h; exact ⟨_, rfl⟩
@@ -22,10 +22,11 @@ theorem emb_name_ok : ∀ (e : Expr) (n : Node), Emb e n → ∃ nm, n.name = .o
   | field a => simp only [Emb] at h; obtain ⟨p, x, rfl, _⟩ := h; exact ⟨_, rfl⟩
   | call f as => simp only [Emb] at h; obtain ⟨p, p', wr, ops, rfl, _⟩ := h; exact ⟨_, rfl⟩
   | list as => simp only [Emb] at h; obtain ⟨p, p', ops, rfl, _⟩ := h; exact ⟨_, rfl⟩
-  | _ => simp [Emb] at h
+  | _ => simp [FragE0] at hf
 
 /-- an embedded expression is a constant node only for literals -/
-theorem emb_const (e : Expr) (n : Node) (h : Emb e n) (hc : n.cls = .leaf .const) : (∃ k, e = .int k) ∨ (∃ s, e = .str s) := by
+theorem emb_const (e : Expr) (n : Node) (hf : FragE0 e = true) (h : Emb e n) (hc : n.cls = .leaf .const) :
+    (∃ k, e = .int k) ∨ (∃ s, e = .str s) := by
   cases e with
   | var k v => cases k <;> (simp only [Emb] at h; obtain ⟨p, rfl⟩ := h; simp [Node.cls] at hc)
   | int k => exact Or.inl ⟨k, rfl⟩
@@ -36,22 +37,25 @@ theorem emb_const (e : Expr) (n : Node) (h : Emb e n) (hc : n.cls = .leaf .const
   | field a => simp only [Emb] at h; obtain ⟨p, x, rfl, _⟩ := h; simp [Node.cls] at hc
   | call f as => simp only [Emb] at h; obtain ⟨p, p', wr, ops, rfl, _⟩ := h; simp [Node.cls] at hc
   | list as => simp only [Emb] at h; obtain ⟨p, p', ops, rfl, _⟩ := h; simp [Node.cls] at hc
-  | _ => simp [Emb] at h
+  | _ => simp [FragE0] at hf
 
 /-- an embedded expression is a binary node only for binary operations -/
-theorem emb_binary (e : Expr) (op : Str) (p : Int) (x y : Node) (h : Emb e (.binary op p x y)) :
-    ∃ o a b, e = .bin o a b ∧ op = binName o ∧ Emb a x ∧ Emb b y := by
+theorem emb_binary (e : Expr) (op : Str) (p : Int) (x y : Node) (hf : FragE0 e = true) (h : Emb e (.binary op p x y)) :
+    ∃ o a b, e = .bin o a b ∧ op = binName o ∧ Emb a x ∧ Emb b y ∧ FragE0 a = true ∧ FragE0 b = true := by
   cases e with
   | var k v => cases k <;> (simp only [Emb] at h; obtain ⟨p, h⟩ := h; cases h)
   | int k => simp only [Emb] at h; obtain ⟨p, h⟩ := h; cases h
   | str s => simp only [Emb] at h; obtain ⟨p, h⟩ := h; cases h
   | sym s => simp only [Emb] at h; obtain ⟨p, h⟩ := h; cases h
   | un o a => simp only [Emb] at h; obtain ⟨p, x, h, _⟩ := h; cases h
-  | bin o a b => simp only [Emb] at h; obtain ⟨p', x', y', h, ha, hb⟩ := h; cases h; exact ⟨o, a, b, rfl, rfl, ha, hb⟩
+  | bin o a b =>
+    simp only [Emb] at h; obtain ⟨p', x', y', h, ha, hb⟩ := h; cases h
+    simp only [FragE0, Bool.and_eq_true] at hf
+    exact ⟨o, a, b, rfl, rfl, ha, hb, hf.1, hf.2⟩
   | field a => simp only [Emb] at h; obtain ⟨p, x, h, _⟩ := h; cases h
   | call f as => simp only [Emb] at h; obtain ⟨p, p', wr, ops, h, _⟩ := h; cases h
   | list as => simp only [Emb] at h; obtain ⟨p, p', ops, h, _⟩ := h; cases h
-  | _ => simp [Emb] at h
+  | _ => simp [FragE0] at hf
 
 theorem embLv_name_ok (lv : Expr) (l : Node) (h : EmbLv lv l) : ∃ nm, l.name = .ok nm := by
   cases lv with
@@ -155,7 +159,7 @@ def okAmbs (prevSet : Bool) : List Stmt → Bool
 end
 
 /-- a `set` statement that is not step-like embeds as a node that is not step-shaped -/
-theorem set_notStep (lv v : Expr) (hns : stepLike (.set lv v) = false) (p : Int) (c : Node)
+theorem set_notStep (lv v : Expr) (hf0 : FragE0 v = true) (hns : stepLike (.set lv v) = false) (p : Int) (c : Node)
     (h : EmbS (.set lv v) (.stmt p c)) (p0 : Int) : NotStepNode (some (.stmt p0 c)) := by
   simp only [EmbS] at h
   obtain ⟨p', q, l, r, he, hlv, hv⟩ := h
@@ -164,13 +168,13 @@ theorem set_notStep (lv v : Expr) (hns : stepLike (.set lv v) = false) (p : Int)
   by_cases hb : r.cls = .binary
   · cases r with
     | binary op pp x y =>
-      obtain ⟨o, a, b, rfl, rfl, ha, hbb⟩ := emb_binary v op pp x y hv
-      refine Or.inr ⟨_, _, _, _, rfl, emb_name_ok b y hbb, ?_⟩
+      obtain ⟨o, a, b, rfl, rfl, ha, hbb, hfa, hfb⟩ := emb_binary v op pp x y hf0 hv
+      refine Or.inr ⟨_, _, _, _, rfl, emb_name_ok b y hfb hbb, ?_⟩
       by_cases ho : o = .add
       · subst ho
         right
         intro hc
-        rcases emb_const a x ha hc with ⟨k, rfl⟩ | ⟨s, rfl⟩
+        rcases emb_const a x hfa ha hc with ⟨k, rfl⟩ | ⟨s, rfl⟩
         · simp [stepLike] at hns
         · simp [stepLike] at hns
       · left
@@ -194,7 +198,7 @@ theorem tgtC_lower1_ne (s : Stmt) (y : Src) (_h : EmbSrc1 s y) (o : Int) : tgtC 
   exact tgtC_ne_nil o _ this
 
 /-- the last statement of the (condition-detected) list of one embedded statement that is not step-like -/
-theorem lastNode1_notStep (s : Stmt) (y : Src) (h : EmbSrc1 s y) (hns : stepLike s = false) (o : Int) :
+theorem lastNode1_notStep (s : Stmt) (y : Src) (hfr : FragT s = true) (h : EmbSrc1 s y) (hns : stepLike s = false) (o : Int) :
     NotStepNode (tgtC o (lower1 y)).reverse.head? := by
   cases s with
   | ifThen c t e =>
@@ -214,7 +218,9 @@ theorem lastNode1_notStep (s : Stmt) (y : Src) (h : EmbSrc1 s y) (hns : stepLike
     | _ => obtain ⟨sm, p, rfl, _, he, _⟩ := h; simp [EmbS] at he
   | set lv v =>
     obtain ⟨sm, p, rfl, _, he, _⟩ := h
-    rw [tgtC_lower1_simple]; exact set_notStep lv v hns p sm.code he _
+    rw [tgtC_lower1_simple]
+    have hf0 : FragE0 v = true := by simp only [FragT, Bool.and_eq_true] at hfr; exact hfr.2
+    exact set_notStep lv v hf0 hns p sm.code he _
   | call f as =>
     obtain ⟨⟨sz, off, code⟩, p, rfl, _, he, _⟩ := h
     simp only [EmbS] at he
@@ -235,18 +241,19 @@ theorem lastStepLike_cons (s : Stmt) (ss : List Stmt) (h : ss ≠ []) : lastStep
   | nil => exact absurd rfl h
   | cons y ys => simp [List.getLast?_cons_cons]
 
-theorem lastNode_notStep : ∀ (b : List Stmt) (b' : List Src), EmbSrc b b' → lastStepLike b = false → ∀ (o : Int),
+theorem lastNode_notStep : ∀ (b : List Stmt) (b' : List Src), FragTs b = true → EmbSrc b b' → lastStepLike b = false → ∀ (o : Int),
     NotStepNode (tgtC o (lower b')).reverse.head? := by
   intro b
   induction b with
   | nil =>
-    intro b' h _ o
+    intro b' _ h _ o
     have : b' = [] := h
     subst this
     exact Or.inl (by simp [lower, tgtC])
   | cons s ss ih =>
-    intro b' h hns o
+    intro b' hfr h hns o
     obtain ⟨y, ys, rfl, h1, h2⟩ := h
+    simp only [FragTs, Bool.and_eq_true] at hfr
     rw [tgtC_lower_cons]
     by_cases hss : ss = []
     · subst hss
@@ -254,7 +261,7 @@ theorem lastNode_notStep : ∀ (b : List Stmt) (b' : List Src), EmbSrc b b' → 
       subst this
       have hs : stepLike s = false := by simpa [lastStepLike] using hns
       rw [lower_nil, tgtC_nil, List.append_nil]
-      exact lastNode1_notStep s y h1 hs o
+      exact lastNode1_notStep s y hfr.1 h1 hs o
     · rw [lastStepLike_cons s ss hss] at hns
       have hne : tgtC (o + y.size) (lower ys) ≠ [] := by
         cases ss with
@@ -265,7 +272,7 @@ theorem lastNode_notStep : ∀ (b : List Stmt) (b' : List Src), EmbSrc b b' → 
           have := tgtC_lower1_ne s2 y2 h21 (o + y.size)
           simp [this]
       rw [head?_reverse_append _ _ hne]
-      exact ih ys h2 hns (o + y.size)
+      exact ih ys hfr.2 h2 hns (o + y.size)
 
 /-! ### membership in the class -/
 
@@ -278,12 +285,12 @@ def PrevInv (prevSet : Bool) (prev : Option Node) : Prop :=
 theorem plain_simpleCode' {p : Int} {c : Node} (h : PlainStmt (.stmt p c)) : simpleCode c = true := by
   cases h <;> rfl
 
-theorem emb_cond_name (c : Expr) (cond : Node) (h : Emb c cond) :
+theorem emb_cond_name (c : Expr) (cond : Node) (hf : FragE0 c = true) (h : Emb c cond) :
     ∀ cn cp cl cr, cond = .binary cn cp cl cr → ∃ nm, cl.name = .ok nm := by
   intro cn cp cl cr e
   subst e
-  obtain ⟨o, a, b, rfl, _, ha, _⟩ := emb_binary c cn cp cl cr h
-  exact emb_name_ok a cl ha
+  obtain ⟨o, a, b, rfl, _, ha, _, hfa, _⟩ := emb_binary c cn cp cl cr hf h
+  exact emb_name_ok a cl hfa ha
 
 theorem isRepeatWith_prev (r : Ro) (ps : Bool) (prev : Option Node) (hp : PrevInv ps prev)
     (hcond : ∀ cn cp cl cr, r.cond = .binary cn cp cl cr → ∃ nm, cl.name = .ok nm)
@@ -293,45 +300,48 @@ theorem isRepeatWith_prev (r : Ro) (ps : Bool) (prev : Option Node) (hp : PrevIn
   · exact isRepeatWith_notBinary r p c h
   · exact isRepeatWith_notStep r p q pop pl pr hnm hcond (hlast hps)
 
-theorem emb_notIntLeft (c : Expr) (cond : Node) (h : Emb c cond) (hn : intLeft c = false) :
+theorem emb_notIntLeft (c : Expr) (cond : Node) (hf : FragE0 c = true) (h : Emb c cond) (hn : intLeft c = false) :
     ∀ op p l rr, cond = .binary op p l rr → l.cls ≠ .leaf .const := by
   intro op p l rr e hc
   subst e
-  obtain ⟨o, a, b, rfl, _, ha, _⟩ := emb_binary c op p l rr h
-  rcases emb_const a l ha hc with ⟨k, rfl⟩ | ⟨s, rfl⟩ <;> simp [intLeft] at hn
+  obtain ⟨o, a, b, rfl, _, ha, _, hfa, _⟩ := emb_binary c op p l rr hf h
+  rcases emb_const a l hfa ha hc with ⟨k, rfl⟩ | ⟨s, rfl⟩ <;> simp [intLeft] at hn
 
 mutual
-theorem class1 : (s : Stmt) → (x : Src) → EmbSrc1 s x → ∀ (ps : Bool) (prev : Option Node) (o : Int), PrevInv ps prev →
+theorem class1 : (s : Stmt) → (x : Src) → FragT s = true → EmbSrc1 s x → ∀ (ps : Bool) (prev : Option Node) (o : Int), PrevInv ps prev →
     okAmb1 ps s = true → x.ok prev o = true ∧ PrevInv (isSet s) (lastOr (tgtL1 o x) prev)
-  | .ifThen c t e, x, h, ps, prev, o, _, hok => by
+  | .ifThen c t e, x, hfr, h, ps, prev, o, _, hok => by
     obtain ⟨csz, cn, t', e', rfl, _, ht, he⟩ := h
     simp only [okAmb1, Bool.and_eq_true] at hok
-    refine ⟨ok_if.2 ⟨classs t t' ht false none _ (Or.inl rfl) hok.1, classs e e' he false none _ (Or.inl rfl) hok.2⟩, ?_⟩
+    simp only [FragT, Bool.and_eq_true] at hfr
+    refine ⟨ok_if.2 ⟨classs t t' hfr.1.2 ht false none _ (Or.inl rfl) hok.1, classs e e' hfr.2 he false none _ (Or.inl rfl) hok.2⟩, ?_⟩
     simp only [tgtL1, lastOr]
     exact Or.inr ⟨_, _, rfl, Or.inl (by simp [Node.cls])⟩
-  | .repeatWhile c b, x, h, ps, prev, o, hp, hok => by
+  | .repeatWhile c b, x, hfr, h, ps, prev, o, hp, hok => by
     obtain ⟨csz, cn, b', rfl, hc, hb⟩ := h
+    simp only [FragT, Bool.and_eq_true] at hfr
     simp only [okAmb1, Bool.and_eq_true, Bool.not_eq_true', Bool.and_eq_false_iff] at hok
     obtain ⟨⟨hil, hamb⟩, hbody⟩ := hok
-    refine ⟨ok_while.2 ⟨classs b b' hb false none _ (Or.inl rfl) hbody, ?_, ?_⟩, ?_⟩
-    · apply isRepeatWith_prev _ ps prev hp (emb_cond_name c cn hc)
+    refine ⟨ok_while.2 ⟨classs b b' hfr.2 hb false none _ (Or.inl rfl) hbody, ?_, ?_⟩, ?_⟩
+    · apply isRepeatWith_prev _ ps prev hp (emb_cond_name c cn hfr.1.2 hc)
       intro hps
       have : lastStepLike b = false := by
         rcases hamb with h | h
         · rw [hps] at h; cases h
         · exact h
-      exact lastNode_notStep b b' hb this _
-    · exact isRepeatWithIn_leftNotConst _ (emb_notIntLeft c cn hc hil)
+      exact lastNode_notStep b b' hfr.2 hb this _
+    · exact isRepeatWithIn_leftNotConst _ (emb_notIntLeft c cn hfr.1.2 hc hil)
     · simp only [tgtL1, lastOr]
       exact Or.inr ⟨_, _, rfl, Or.inl (by simp [Node.cls])⟩
-  | .repeatWith (.var .loc v) a b down body, x, h, ps, prev, o, _, hok => by
+  | .repeatWith (.var .loc v) a b down body, x, hfr, h, ps, prev, o, _, hok => by
+    simp only [FragT, Bool.and_eq_true] at hfr
     obtain ⟨pre, incr, csz, body', p1, p2, p3, p4, p5, pv1, pv2, pv3, pv4, ra, rb, rfl, ho1, ho2, hc1, hc2, _, _, hb⟩ := h
     simp only [okAmb1] at hok
     have hparts : withParts (.binary (cmpName down) p1 (.leaf .localVar (.s v) pv1) rb) pre.code incr.code =
         some (.leaf .localVar (.s v) pv2, ra, .s v, if down then S "-" else S "+") := by
       rw [hc1, hc2]
       cases down <;> simp [withParts, Node.name, cmpName, stepStr] <;> decide
-    refine ⟨ok_with.2 ⟨ho1, ho2, by rw [hc1]; rfl, by rw [hc2]; rfl, classs body body' hb false none _ (Or.inl rfl) hok, by rw [hparts]; rfl, ?_⟩, ?_⟩
+    refine ⟨ok_with.2 ⟨ho1, ho2, by rw [hc1]; rfl, by rw [hc2]; rfl, classs body body' hfr.2 hb false none _ (Or.inl rfl) hok, by rw [hparts]; rfl, ?_⟩, ?_⟩
     · exact isRepeatWithIn_leftNotConst _ (by
         intro op p l rr e
         simp only [roOf, Node.binary.injEq] at e
@@ -339,7 +349,7 @@ theorem class1 : (s : Stmt) → (x : Src) → EmbSrc1 s x → ∀ (ps : Bool) (p
         simp [Node.cls])
     · simp only [tgtL1, hparts, lastOr]
       exact Or.inr ⟨_, _, rfl, Or.inl (by simp [Node.cls])⟩
-  | .set lv v, x, h, ps, prev, o, _, _ => by
+  | .set lv v, x, _, h, ps, prev, o, _, _ => by
     obtain ⟨⟨sz, off, code⟩, p, rfl, ho, he, hpl⟩ := h
     refine ⟨ok_simple.2 ⟨ho, plain_simpleCode' hpl⟩, ?_⟩
     simp only [EmbS] at he
@@ -347,7 +357,7 @@ theorem class1 : (s : Stmt) → (x : Src) → EmbSrc1 s x → ∀ (ps : Bool) (p
     cases he
     simp only [tgtL1, lastOr, isSet]
     exact Or.inr ⟨_, _, rfl, Or.inr ⟨rfl, _, _, _, _, rfl, embLv_name_ok lv l hlv⟩⟩
-  | .call f as, x, h, ps, prev, o, _, _ => by
+  | .call f as, x, _, h, ps, prev, o, _, _ => by
     obtain ⟨⟨sz, off, code⟩, p, rfl, ho, he, hpl⟩ := h
     refine ⟨ok_simple.2 ⟨ho, plain_simpleCode' hpl⟩, ?_⟩
     simp only [EmbS] at he
@@ -355,7 +365,7 @@ theorem class1 : (s : Stmt) → (x : Src) → EmbSrc1 s x → ∀ (ps : Bool) (p
     cases he
     simp only [tgtL1, lastOr]
     exact Or.inr ⟨_, _, rfl, Or.inl (by simp [Node.cls])⟩
-  | .exit, x, h, ps, prev, o, _, _ => by
+  | .exit, x, _, h, ps, prev, o, _, _ => by
     obtain ⟨⟨sz, off, code⟩, p, rfl, ho, he, hpl⟩ := h
     refine ⟨ok_simple.2 ⟨ho, plain_simpleCode' hpl⟩, ?_⟩
     simp only [EmbS] at he
@@ -363,25 +373,26 @@ theorem class1 : (s : Stmt) → (x : Src) → EmbSrc1 s x → ∀ (ps : Bool) (p
     cases he
     simp only [tgtL1, lastOr]
     exact Or.inr ⟨_, _, rfl, Or.inl (by simp [Node.cls])⟩
-  | .put .., x, h, _, _, _, _, _ => by obtain ⟨sm, p, rfl, ho, he, hp⟩ := h; exact absurd he (by simp [EmbS])
-  | .delete .., x, h, _, _, _, _, _ => by obtain ⟨sm, p, rfl, ho, he, hp⟩ := h; exact absurd he (by simp [EmbS])
-  | .hilite .., x, h, _, _, _, _, _ => by obtain ⟨sm, p, rfl, ho, he, hp⟩ := h; exact absurd he (by simp [EmbS])
-  | .mcall .., x, h, _, _, _, _, _ => by obtain ⟨sm, p, rfl, ho, he, hp⟩ := h; exact absurd he (by simp [EmbS])
-  | .tell .., x, h, _, _, _, _, _ => by obtain ⟨sm, p, rfl, ho, he, hp⟩ := h; exact absurd he (by simp [EmbS])
-  | .repeatIn .., x, h, _, _, _, _, _ => by obtain ⟨sm, p, rfl, ho, he, hp⟩ := h; exact absurd he (by simp [EmbS])
-  | .exitRepeat, x, h, _, _, _, _, _ => by obtain ⟨sm, p, rfl, ho, he, hp⟩ := h; exact absurd he (by simp [EmbS])
-  | .repeatWith (.int _) .., x, h, _, _, _, _, _ => by obtain ⟨sm, p, rfl, ho, he, hp⟩ := h; exact absurd he (by simp [EmbS])
-theorem classs : (ss : List Stmt) → (xs : List Src) → EmbSrc ss xs → ∀ (ps : Bool) (prev : Option Node) (o : Int), PrevInv ps prev →
+  | .put .., x, _, h, _, _, _, _, _ => by obtain ⟨sm, p, rfl, ho, he, hp⟩ := h; exact absurd he (by simp [EmbS])
+  | .delete .., x, _, h, _, _, _, _, _ => by obtain ⟨sm, p, rfl, ho, he, hp⟩ := h; exact absurd he (by simp [EmbS])
+  | .hilite .., x, _, h, _, _, _, _, _ => by obtain ⟨sm, p, rfl, ho, he, hp⟩ := h; exact absurd he (by simp [EmbS])
+  | .mcall .., x, _, h, _, _, _, _, _ => by obtain ⟨sm, p, rfl, ho, he, hp⟩ := h; exact absurd he (by simp [EmbS])
+  | .tell .., x, _, h, _, _, _, _, _ => by obtain ⟨sm, p, rfl, ho, he, hp⟩ := h; exact absurd he (by simp [EmbS])
+  | .repeatIn .., x, _, h, _, _, _, _, _ => by obtain ⟨sm, p, rfl, ho, he, hp⟩ := h; exact absurd he (by simp [EmbS])
+  | .exitRepeat, x, _, h, _, _, _, _, _ => by obtain ⟨sm, p, rfl, ho, he, hp⟩ := h; exact absurd he (by simp [EmbS])
+  | .repeatWith (.int _) .., x, _, h, _, _, _, _, _ => by obtain ⟨sm, p, rfl, ho, he, hp⟩ := h; exact absurd he (by simp [EmbS])
+theorem classs : (ss : List Stmt) → (xs : List Src) → FragTs ss = true → EmbSrc ss xs → ∀ (ps : Bool) (prev : Option Node) (o : Int), PrevInv ps prev →
     okAmbs ps ss = true → Src.oks prev o xs = true
-  | [], xs, h, _, _, _, _, _ => by
+  | [], xs, _, h, _, _, _, _, _ => by
     have : xs = [] := h
     subst this
     rfl
-  | s :: ss, xs, h, ps, prev, o, hp, hok => by
+  | s :: ss, xs, hfr, h, ps, prev, o, hp, hok => by
     obtain ⟨y, ys, rfl, h1, h2⟩ := h
     simp only [okAmbs, Bool.and_eq_true] at hok
-    obtain ⟨a1, a2⟩ := class1 s y h1 ps prev o hp hok.1
-    exact oks_cons.2 ⟨a1, classs ss ys h2 (isSet s) _ _ a2 hok.2⟩
+    simp only [FragTs, Bool.and_eq_true] at hfr
+    obtain ⟨a1, a2⟩ := class1 s y hfr.1 h1 ps prev o hp hok.1
+    exact oks_cons.2 ⟨a1, classs ss ys hfr.2 h2 (isSet s) _ _ a2 hok.2⟩
 end
 
 end Drx.LinkFlow
